@@ -12,11 +12,23 @@ export CARGO_NET_OFFLINE=true
 git -C "$WT" apply "$D/patch.diff" || { echo "$D: patch does not apply"; exit 1; }
 (cd "$WT" && cargo test --workspace --no-fail-fast --offline) > "$WT/../$SLOT.suite.log" 2>&1; a=$?
 pass=$(grep -E '^test result' "$WT/../$SLOT.suite.log" | awk '{s+=$4} END {print s}')
+if grep -qE 'crate::|super::' "$D/demo.rs"; then
+    # the demonstration is a module to be appended to the crate's own test file
+    IT="$WT/contracts/marketplace/src/integration_tests.rs"; MOD=$(sed -n 's/^\(pub \)\{0,1\}mod \([a-z0-9_]*\).*/\2/p' "$D/demo.rs" | head -1)
+    cat "$D/demo.rs" >> "$IT"
+    (cd "$WT" && cargo test -p marketplace --offline "$MOD") > "$WT/../$SLOT.with.log" 2>&1; b=$?
+    grep -q "test result: FAILED" "$WT/../$SLOT.with.log" || b=0
+    git -C "$WT" checkout -q -- .; cat "$D/demo.rs" >> "$IT"
+    (cd "$WT" && cargo test -p marketplace --offline "$MOD") > "$WT/../$SLOT.without.log" 2>&1; c=$?
+    grep -qE "test result: ok. [1-9]" "$WT/../$SLOT.without.log" || c=1
+    git -C "$WT" checkout -q -- .
+else
 mkdir -p "$WT/contracts/marketplace/tests"; cp "$D/demo.rs" "$WT/contracts/marketplace/tests/seed_demo.rs"
 (cd "$WT" && cargo test -p marketplace --test seed_demo --offline) > "$WT/../$SLOT.with.log" 2>&1; b=$?
 git -C "$WT" checkout -q -- .
 (cd "$WT" && cargo test -p marketplace --test seed_demo --offline) > "$WT/../$SLOT.without.log" 2>&1; c=$?
 rm -f "$WT/contracts/marketplace/tests/seed_demo.rs"; rmdir "$WT/contracts/marketplace/tests" 2>/dev/null
+fi
 ok=CONFIRMED; { [ $a -eq 0 ] && [ "$pass" = 30 ] && [ $b -ne 0 ] && [ $c -eq 0 ]; } || ok=NOT-CONFIRMED
 echo "$D: $ok suite_exit=$a suite_pass=$pass demo_with_patch_exit=$b demo_without_patch_exit=$c"
 grep -E "^test .* FAILED|panicked at" "$WT/../$SLOT.with.log" | head -3
